@@ -1,0 +1,10 @@
+//go:build !verif
+
+// Package verifhook provides observation and scheduling points for the
+// model-based verification harness. With the "verif" build tag off every
+// function in this package is an empty, inlinable no-op.
+package verifhook
+
+func Emit(ev string, key string, a int64, b int64) {}
+
+func Yield(point string, key string) {}
